@@ -21,6 +21,7 @@ from pathlib import Path
 RB_FLAGS = ['-elastic', '-ef', '-el', '-eu', '-ermd', '-ea', '-ep', '-em', '-eb', '-eunit']
 FLOAT_FLAGS = ['-ef', '-el', '-eu', '-ea', '-ep', '-em']
 EXTRA_FLAGS = ['-go', '-ff']
+NAMING_FLAGS = ['-sep', '-name']
 GUARDS = ["args.elastic and args.go", "args.to_ff.startswith('elnedyn')", "args.elastic"]
 
 
@@ -38,17 +39,18 @@ def extract(repo):
     calls = {}
     for node in ast.walk(tree):
         if isinstance(node, ast.Call) and isinstance(node.func, ast.Attribute) and node.func.attr == 'add_argument' \
-                and node.args and isinstance(node.args[0], ast.Constant) and node.args[0].value in RB_FLAGS + EXTRA_FLAGS:
+                and node.args and isinstance(node.args[0], ast.Constant) and node.args[0].value in RB_FLAGS + EXTRA_FLAGS + NAMING_FLAGS:
             flag = node.args[0].value
             if flag in calls:
                 raise ExtractError('option %s is added twice' % flag)
             calls[flag] = node
-    missing = [f for f in RB_FLAGS + EXTRA_FLAGS if f not in calls]
+    missing = [f for f in RB_FLAGS + EXTRA_FLAGS + NAMING_FLAGS if f not in calls]
     if missing:
         raise ExtractError('add_argument calls not found for %r' % missing)
     opts = []
+    naming_opts = []
     dflt_rat = []
-    for flag in RB_FLAGS:
+    for flag in RB_FLAGS + NAMING_FLAGS:
         node = calls[flag]
         if len(node.args) != 1:
             raise ExtractError('option %s has aliases: %s' % (flag, ast.unparse(node)))
@@ -57,9 +59,10 @@ def extract(repo):
         if unknown:
             raise ExtractError('option %s has keywords %r the model does not know' % (flag, sorted(unknown)))
         dest = ast.literal_eval(kw['dest']) if 'dest' in kw else flag.lstrip('-')
-        opts.append((flag, dest, ast.unparse(kw['type']) if 'type' in kw else '',
-                     ast.literal_eval(kw['action']) if 'action' in kw else '',
-                     ast.unparse(kw['default']) if 'default' in kw else ''))
+        (opts if flag in RB_FLAGS else naming_opts).append(
+            (flag, dest, ast.unparse(kw['type']) if 'type' in kw else '',
+             ast.literal_eval(kw['action']) if 'action' in kw else '',
+             ast.unparse(kw['default']) if 'default' in kw else ''))
         if flag in FLOAT_FLAGS:
             d = ast.literal_eval(kw['default'])
             f = Fraction(float(d))
@@ -96,6 +99,12 @@ def extract(repo):
     if len(ctor) != 1 or ctor[0].args:
         raise ExtractError('expected one keyword-only call of ApplyRubberBand in the `if args.elastic:` block')
     call_kw = [(k.arg, ast.unparse(k.value)) for k in ctor[0].keywords]
+    # what follows the construction of the processor inside the block
+    idx = [i for i, st in enumerate(elastic_if.body) if isinstance(st, ast.Assign) and len(st.targets) == 1
+           and isinstance(st.targets[0], ast.Name) and st.targets[0].id == 'rubber_band_processor']
+    if len(idx) != 1:
+        raise ExtractError('`rubber_band_processor = ...` is not a statement of the `if args.elastic:` block')
+    tail = [ast.unparse(st) for st in elastic_if.body[idx[0] + 1:]]
     # defaults of the processor
     ptree = ast.parse(open(os.path.join(repo, 'vermouth', 'processors', 'apply_rubber_band.py')).read())
     pdef, consts = None, []
@@ -120,6 +129,9 @@ def extract(repo):
             '  dflt : String', '  deriving DecidableEq, Repr', '',
             'def options : List Opt := [',
             ',\n'.join('  ⟨%s⟩' % ', '.join(lean_str(x) for x in o) for o in opts) + ']', '',
+            'def namingOptions : List Opt := [',
+            ',\n'.join('  ⟨%s⟩' % ', '.join(lean_str(x) for x in o) for o in naming_opts) + ']', '',
+            'def tailStatements : List String := [' + ', '.join(lean_str(t) for t in tail) + ']', '',
             'def dfltRat : List (String × Int × Nat) := [' + ', '.join('(%s, %d, %d)' % (lean_str(f), n, d) for f, n, d in dflt_rat) + ']', '',
             'def callKeywords : List (String × String) := [' + ', '.join('(%s, %s)' % (lean_str(k), lean_str(v)) for k, v in call_kw) + ']', '',
             'def guards : List String := [' + ', '.join(lean_str(ast.unparse(s.test)) for _, s in stmts) + ']', '',
@@ -131,7 +143,7 @@ def extract(repo):
     # (a) a real parser with exactly these options
     def make_parser():
         parser = argparse.ArgumentParser(prog='martinize2-elastic-options')
-        for flag in RB_FLAGS + EXTRA_FLAGS:
+        for flag in RB_FLAGS + EXTRA_FLAGS + NAMING_FLAGS:
             call = calls[flag]
             expr = ast.Expression(ast.Call(func=ast.Attribute(value=ast.Name('parser', ast.Load()), attr='add_argument',
                                                               ctx=ast.Load()), args=call.args, keywords=call.keywords))
@@ -266,6 +278,8 @@ def gen_cli_options(rng):
     o['eb'] = rng.choice([None, None, None, 'BB', 'BB,SC1', 'BB,', ',', '', ' BB', 'BB,BB', 'CA,W', 'SC1,SC2,BB', 'bb',
                           'BB SC1', 'BB;SC1'])
     o['eunit'], o['unit_kind'] = (None, 'absent') if rng.random() < 0.12 else gen_unit(rng)
+    o['sep'] = rng.random() < 0.3
+    o['name'] = rng.choice([None, None, None, 'prot', 'molecule', 'x y', '', 'A_1'])
     return o
 
 
@@ -279,8 +293,12 @@ def argv_of(rng, o):
     for f, key in (('-ermd', 'ermd'), ('-eb', 'eb'), ('-eunit', 'eunit')):
         if o[key] is not None:
             opts.append((f, o[key]))
+    if o.get('name') is not None:
+        opts.append(('-name', o['name']))
     if rng is not None:
         rng.shuffle(opts)
+    if o.get('sep'):
+        argv.append('-sep')
     for f, v in opts:
         if v == '' or v.startswith('-') or (rng is not None and rng.random() < 0.25):
             argv.append('%s=%s' % (f, v))
@@ -360,6 +378,11 @@ def canon_processor(proc, merged, probes, ARB, selectors, enc):
     return s, {'names': names, 'selk': selk, 'kind': kind, 'table': table, 'attrs': a}
 
 
+def event_name(dedup, molname):
+    from common import enc
+    return 'name:%s:%s' % ('1' if dedup is True else '0' if dedup is False else repr(dedup), enc(molname) if isinstance(molname, str) else repr(molname))
+
+
 class _Logger:
     def __init__(self):
         self.critical_messages = []
@@ -378,6 +401,7 @@ def make_runner(X, vermouth, ARB, selectors, enc):
     class RecARB(ARB.ApplyRubberBand):
         def run_system(self, system):
             rec.setdefault('ran', []).append((self, system))
+            rec.setdefault('events', []).append('network')
 
     class RecMerge:
         def __init__(self, *a, **k):
@@ -385,11 +409,18 @@ def make_runner(X, vermouth, ARB, selectors, enc):
 
         def run_system(self, system):
             rec.setdefault('merged', []).append(system)
+            rec.setdefault('events', []).append('merge')
+
+    class RecName(vermouth.NameMolType):
+        def run_system(self, system):
+            ok = system is rec.get('system') and self.meta_key == 'moltype'
+            rec.setdefault('events', []).append(event_name(self.deduplicate, self.molname) if ok else 'name-of-something-else')
 
     class Shim:
         processors = vermouth.processors
         ApplyRubberBand = RecARB
         MergeAllMolecules = RecMerge
+        NameMolType = RecName
 
     logger = _Logger()
     statement = X['make_statement'](Shim, selectors, logger)
@@ -399,6 +430,7 @@ def make_runner(X, vermouth, ARB, selectors, enc):
         rec.clear()
         logger.critical_messages[:] = []
         system = object()
+        rec['system'] = system
         err = sys.stderr
         sys.stderr = io.StringIO()
         try:
@@ -427,6 +459,9 @@ def make_runner(X, vermouth, ARB, selectors, enc):
             s += ' run_system-calls=%d' % len(ran)
         if merged and (rec['merged'][0] is not system or rec.get('merge_args') != ((), {})):
             s += ' merge-of-something-else'
+        info['events'] = list(rec.get('events', []))
+        if info['events']:
+            s += ' then=' + ','.join(info['events'])
         return s, info
     return run
 
@@ -476,6 +511,10 @@ def cli_oracle(o, probes, impl, info):
         errs.append('-eunit %r: criterion kind %s, expected %s' % (unit, info['kind'], exp_kind))
     if (' merge=1 ' in impl) != (unit == 'all'):
         errs.append('-eunit %r: MergeAllMolecules %s' % (unit, 'run' if ' merge=1 ' in impl else 'not run'))
+    exp_events = (['merge'] if unit == 'all' else []) + ['network', event_name(not o.get('sep'), o['name'] if o.get('name') is not None else 'molecule')]
+    if info.get('events') != exp_events:
+        errs.append('the block runs %r; expected %r (the molecule types are named again, last, after the network)'
+                    % (info.get('events'), exp_events))
     if regs is not None:
         exp_table = [1 if any(min(r) <= x <= max(r) and min(r) <= y <= max(r) for r in regs) else 0
                      for x in probes for y in probes]
@@ -536,7 +575,7 @@ def _bonds_dump(mol, rubber):
 
 
 def cli_child(repo, runs, conn, probes_of):
-    """runs: list of (extra argv, nres, shift, finish?)"""
+    """runs: list of (extra argv, nres, shift, finish?, pdb path or None, -ss value or None)"""
     import logging
     import pickle
     import runpy
@@ -547,10 +586,11 @@ def cli_child(repo, runs, conn, probes_of):
     from vermouth import selectors
     from vermouth.processors import apply_rubber_band as ARB
     from vermouth.processors.merge_all_molecules import MergeAllMolecules
+    from vermouth.processors.name_moltype import NameMolType
     from common import enc
     results = []
     cap = {}
-    o_rs, o_merge = ARB.ApplyRubberBand.run_system, MergeAllMolecules.run_system
+    o_rs, o_merge, o_name = ARB.ApplyRubberBand.run_system, MergeAllMolecules.run_system, NameMolType.run_system
 
     def rs(self, system):
         cap['n_rb_calls'] = cap.get('n_rb_calls', 0) + 1
@@ -580,24 +620,37 @@ def cli_child(repo, runs, conn, probes_of):
                                 'intact': _bonds_dump(m, False) == others and _mol_dump(m) == dump,
                                 'ffvars': {k: v for k, v in ffv.items() if isinstance(v, int)}})
         cap['n_after'] = len(system.molecules)
-        if not cap['finish']:
-            raise _Stop()
+        cap.setdefault('events', []).append('network')
+        cap['system'] = system
 
     def merge(self, system):
         cap['merged'] = cap.get('merged', 0) + 1
         cap['n_before_merge'] = len(system.molecules)
+        cap.setdefault('events', []).append('merge')
         return o_merge(self, system)
+
+    def name(self, system):
+        r = o_name(self, system)
+        cap.setdefault('events', []).append(event_name(self.deduplicate, self.molname) if self.meta_key == 'moltype'
+                                            else 'name-under-%r' % (self.meta_key,))
+        cap['names_last'] = [m.meta.get('moltype') for m in system.molecules]
+        if 'network' in cap['events'] and system is cap.get('system'):
+            cap['names_after'] = [m.meta.get('moltype') for m in system.molecules]
+            if not cap['finish']:
+                raise _Stop()       # the network and the renaming are done: the rest of the run is not needed
+        return r
 
     ARB.ApplyRubberBand.run_system = rs
     MergeAllMolecules.run_system = merge
+    NameMolType.run_system = name
     cwd = os.getcwd()
-    for extra, nres, shift, finish in runs:
+    for extra, nres, shift, finish, pdb, ss in runs:
         tmp = tempfile.mkdtemp(prefix='c15cli')
         cap.clear()
         cap['finish'] = finish
-        open(os.path.join(tmp, 'in.pdb'), 'w').write(two_chain_pdb(repo, nres, shift))
+        open(os.path.join(tmp, 'in.pdb'), 'w').write(open(pdb).read() if pdb else two_chain_pdb(repo, nres, shift))
         argv, out, err = sys.argv, sys.stdout, sys.stderr
-        sys.argv = ['martinize2', '-f', 'in.pdb', '-x', 'cg.pdb', '-o', 'topol.top', '-ss', 'C' * (2 * nres),
+        sys.argv = ['martinize2', '-f', 'in.pdb', '-x', 'cg.pdb', '-o', 'topol.top', '-ss', ss or 'C' * (2 * nres),
                     '-maxwarn', '1000'] + extra
         sys.stdout = sys.stderr = io.StringIO()
         os.chdir(tmp)
@@ -619,14 +672,20 @@ def cli_child(repo, runs, conn, probes_of):
                 lg.removeHandler(h)
         res = {'extra': extra, 'outcome': outcome, 'stderr': text, 'merged': cap.get('merged', 0),
                'n_before_merge': cap.get('n_before_merge'), 'n_rb_calls': cap.get('n_rb_calls', 0),
-               'mols': cap.get('mols'), 'exc': cap.get('exc'), 'warnings': cap.get('warnings')}
+               'mols': cap.get('mols'), 'exc': cap.get('exc'), 'warnings': cap.get('warnings'),
+               'names_after': cap.get('names_after'), 'names_last': cap.get('names_last')}
+        evs = list(cap.get('events', []))
+        while evs and evs[0].startswith('name'):
+            evs.pop(0)                  # the naming that precedes the block
+        res['events'] = evs
         if cap.get('proc_obj') is not None:
             s, info = canon_processor(cap['proc_obj'], cap.get('merged', 0), probes_of(extra), ARB, selectors, enc)
             info.pop('attrs')
             a = vars(cap['proc_obj'])
             info['nums'] = {k: a[k] for k in ('lower_bound', 'upper_bound', 'decay_factor', 'decay_power', 'base_constant',
                                               'minimum_force', 'res_min_dist', 'bond_type')}
-            res['proc'], res['info'] = s, info
+            info['events'] = evs
+            res['proc'], res['info'] = s + (' then=' + ','.join(evs) if evs else ''), info
         if finish and outcome == 'end':
             itps = {}
             for fn in sorted(os.listdir(tmp)):
@@ -635,7 +694,7 @@ def cli_child(repo, runs, conn, probes_of):
             res['itps'] = itps
         shutil.rmtree(tmp, ignore_errors=True)
         results.append(res)
-    ARB.ApplyRubberBand.run_system, MergeAllMolecules.run_system = o_rs, o_merge
+    ARB.ApplyRubberBand.run_system, MergeAllMolecules.run_system, NameMolType.run_system = o_rs, o_merge, o_name
     conn.send_bytes(pickle.dumps(results))
     conn.close()
 
@@ -670,6 +729,20 @@ def collect_cli_runs(handle, timeout=900):
     data = pickle.loads(conn.recv_bytes())
     p.join(10)
     return data
+
+
+def itp_atoms(text):
+    """[(index, resid, resname, atomname)] of the [ atoms ] section of a written ITP"""
+    out, section = [], None
+    for raw in text.split('\n'):
+        l = raw.split(';')[0].strip()
+        if l.startswith('['):
+            section = l.strip('[] ').strip()
+            continue
+        if section == 'atoms' and l and not l.startswith('#'):
+            f = l.split()
+            out.append((int(f[0]), int(f[2]), f[3], f[4]))
+    return out
 
 
 def itp_rubber_lines(text):
